@@ -27,13 +27,13 @@ func VH_C10_server_session_message_any_datagram() {
 	msg := verifBytes("datagram", n)
 	from := sessAddr("from")
 
-	oldState, oldWt, oldAddr, oldQ := ss.handleState, ss.window.wt, ss.remoteAddr, len(ss.handle.recv.C)
+	oldState, oldWt, oldAddr, oldQ := ss.handleState, ss.window, ss.remoteAddr, len(ss.handle.recv.C)
 	err := s.handleSessionMessage(from, msg)
 
 	opened := len(sessLog.opens) > 0 && sessLog.opens[len(sessLog.opens)-1].ok
 	if !opened {
 		verifAssert(ss.handleState == oldState, "C10: a datagram that does not authenticate never changes the session's lifecycle state")
-		verifAssert(ss.window.wt == oldWt, "C10: a datagram that does not authenticate never moves the replay window")
+		verifAssert(ss.window == oldWt, "C10: a datagram that does not authenticate never moves the replay window")
 		verifAssert(ss.remoteAddr == oldAddr, "C10: a datagram that does not authenticate never redirects the session")
 		verifAssert(len(ss.handle.recv.C) == oldQ, "C10: a datagram that does not authenticate is never delivered")
 	}
@@ -69,12 +69,12 @@ func VH_C10_client_session_message_any_datagram() {
 	verifAssume(n >= 0 && n <= 65535)
 	msg := verifBytes("datagram", n)
 	from := sessAddr("from")
-	oldState, oldWt, oldAddr, oldQ := ss.handleState, ss.window.wt, ss.remoteAddr, len(ss.handle.recv.C)
+	oldState, oldWt, oldAddr, oldQ := ss.handleState, ss.window, ss.remoteAddr, len(ss.handle.recv.C)
 	err := c.handleSessionMessage(from, msg)
 	opened := len(sessLog.opens) > 0 && sessLog.opens[len(sessLog.opens)-1].ok
 	if !opened {
 		verifAssert(ss.handleState == oldState, "C10: (client) a datagram that does not authenticate never changes the lifecycle state")
-		verifAssert(ss.window.wt == oldWt, "C10: (client) a datagram that does not authenticate never moves the replay window")
+		verifAssert(ss.window == oldWt, "C10: (client) a datagram that does not authenticate never moves the replay window")
 		verifAssert(ss.remoteAddr == oldAddr, "C10: (client) a datagram that does not authenticate never redirects the session")
 		verifAssert(len(ss.handle.recv.C) == oldQ, "C10: (client) a datagram that does not authenticate is never delivered")
 	}
